@@ -16,7 +16,9 @@ from standins.codec_checks import fail, _imports, unjson, unjson_value
 CLASSES = (64, 128, 192)
 NUMBERS = (0, 1, 30, 31, 127, 128, 16383, 16384, 2 ** 32)
 BASES = [(U.T('INTEGER'), 5), (U.T('OCTETSTRING'), b'ab'), (U.T('SEQUENCE', fields=[('a', U.T('INTEGER'), 'req')]), {'a': 1}),
-         (U.T('NULL'), None), (U.T('SEQUENCEOF', elem=U.T('BOOLEAN')), [True]), (U.T('BITSTRING'), '101')]
+         (U.T('NULL'), None), (U.T('SEQUENCEOF', elem=U.T('BOOLEAN')), [True]), (U.T('BITSTRING'), '101'),
+         (U.T('BITSTRING'), '1011001110001111')]
+SEGMENT_TAG = {'OCTETSTRING': 4, 'BITSTRING': 3}
 
 
 def stacks(depth, rng, limit):
@@ -62,10 +64,12 @@ def check_one(base, v, ts, M):
         fails.append(fail('tag-stacks', T, v, 'tag formats %r, expected %r (explicit wrappers constructed; implicit '
                           'tagging keeps the format of the replaced tag)' % (fmts, want_fmts)))
     # (1) identifier octets on the wire, outermost to innermost
-    for ename, enc in (('DER', de), ('BER-indef', be)):
+    segmented = base['k'] in SEGMENT_TAG and len(v) > (8 if base['k'] == 'BITSTRING' else 1)
+    for ename, enc in (('DER', de), ('BER-indef', be)) + ((('BER-segmented', be),) if segmented else ()):
         n += 1
         try:
-            e = enc.encode(val, **(dict(defMode=False) if ename == 'BER-indef' else {}))
+            e = enc.encode(val, **(dict(defMode=False) if ename == 'BER-indef' else
+                                   dict(maxChunkSize=1) if ename == 'BER-segmented' else {}))
         except Exception as ex:
             fails.append(fail('tag-stacks', T, v, 'encoder raised %s: %s' % (type(ex).__name__, str(ex)[:100]), codec=ename))
             continue
@@ -75,12 +79,23 @@ def check_one(base, v, ts, M):
             cls, pc, num, p1 = x690.read_ident(e, p)
             ln, p2 = x690.read_length(e, p1)
             seen.append((cls, num, pc))
-            want = bytes(x690.ident(stack[i][0], want_fmts[i], stack[i][1]))
+            # a segmented string is "constructed contents": its own (innermost) tag is constructed too
+            want = bytes(x690.ident(stack[i][0], 32 if ename == 'BER-segmented' else want_fmts[i], stack[i][1]))
             if e[p:p1] != want:
                 fails.append(fail('tag-stacks', T, v, 'identifier octets at level %d are %s, X.690 says %s' % (
                     i, e[p:p1].hex(), want.hex()), enc=e, codec=ename))
                 break
             p = p2
+        else:
+            if ename == 'BER-segmented':
+                # X.690 8.6.4 / 8.7.3: the segments are encodings of the (untagged) string type itself, whatever
+                # tags the value carries
+                n += 1
+                cls, pc, num, p1 = x690.read_ident(e, p)
+                if (cls, pc, num) != (0, 0, SEGMENT_TAG[base['k']]):
+                    fails.append(fail('tag-stacks', T, v, 'first segment of the constructed string has identifier %s, '
+                                      'expected the universal primitive tag %d' % (e[p:p1].hex(), SEGMENT_TAG[base['k']]),
+                                      enc=e, codec=ename))
         # (2) accepted by the same type
         n += 1
         try:
